@@ -278,6 +278,30 @@ func c14Run(srv *c14Server, c c14Case) (res c14Result) {
 				err = fmt.Errorf("no answer")
 			}
 			outcome = fmt.Sprintf("shell request ok=%v err=%v", ok, err)
+		case "badrequest":
+			if cn.state != "authed" {
+				break
+			}
+			// a session channel, a request type the server does not know, then a burst of further requests that are already
+			// on the wire when the server reacts (what "ssh -o SendEnv=..." does), then the client goes away
+			var ch gossh.Channel
+			var reqs <-chan *gossh.Request
+			var err error
+			if !c14Within(5*time.Second, func() { ch, reqs, err = cn.client.OpenChannel("session", nil) }) || err != nil {
+				outcome = fmt.Sprintf("no session channel: %v", err)
+			} else {
+				go gossh.DiscardRequests(reqs)
+				n := []int{0, 3, 20, 40}[rng.Intn(4)]
+				ch.SendRequest([]string{"pty-req", "env", "exec", "subsystem"}[rng.Intn(4)], false, []byte{0, 0, 0, 1, 'x'})
+				for k := 0; k < n; k++ {
+					ch.SendRequest("env", false, []byte{0, 0, 0, 1, 'a', 0, 0, 0, 1, 'b'})
+				}
+				outcome = fmt.Sprintf("unknown request followed by %d more", n)
+			}
+			time.Sleep(time.Duration(rng.Intn(20)) * time.Millisecond)
+			cn.tcp.Conn.Close()
+			cn.state = "over"
+			open--
 		case "otherchannel":
 			if cn.state != "authed" {
 				break
